@@ -211,7 +211,7 @@ func checkMain(args []string) int {
 		if !ok {
 			var err error
 			p, err = sym.Load(sym.LoadConfig{RepoDir: filepath.Join(repoDir, r.Pkg), HarnessDir: filepath.Join(verifDir, "harness", r.Pkg),
-				Tags: []string{"verif"}, InitPkgs: append(defaultInits(r.Pkg), r.Inits...)})
+				Tags: []string{"verif", "math_big_pure_go"}, InitPkgs: append(defaultInits(r.Pkg), r.Inits...)})
 			if err != nil {
 				fmt.Fprintf(os.Stderr, "ENGINE-ERROR load %s: %v\n", r.Pkg, err)
 				return 2
@@ -301,7 +301,16 @@ func checkMain(args []string) int {
 	violCount := 0
 	knownSeen := map[string]bool{}
 	for _, oc := range outcomes {
-		seenMsg := map[string]bool{}
+		// One class per (kind, head of the message, site). A class is confirmed
+		// by the first of its counterexamples that replays natively; up to
+		// maxTries members with different inputs are tried, because a member
+		// may hinge on the order of events at one virtual instant, which the
+		// native scheduler decides differently.
+		const maxTries = 6
+		classDone := map[string]bool{}
+		classTries := map[string]int{}
+		classFirst := map[string]replayOutcome{}
+		var classOrder []string
 		for _, v := range oc.Res.Violations {
 			if v.Known != "" {
 				k := fmt.Sprintf("KNOWN-FINDING: property=%s %s", id, v.Known)
@@ -311,16 +320,18 @@ func checkMain(args []string) int {
 				}
 				continue
 			}
-			// one replay per violation class (kind + head of the message + site)
 			head := v.Msg
 			if len(head) > 90 {
 				head = head[:90]
 			}
 			key := v.Kind + "|" + head + "|" + v.Where
-			if seenMsg[key] {
+			if classDone[key] || classTries[key] >= maxTries {
 				continue
 			}
-			seenMsg[key] = true
+			if _, seen := classTries[key]; !seen {
+				classOrder = append(classOrder, key)
+			}
+			classTries[key]++
 			path := writeReplay(id, oc.Run, v)
 			ro := replayOutcome{V: v, Path: path}
 			if *noReplay {
@@ -330,13 +341,21 @@ func checkMain(args []string) int {
 			}
 			oc.Replay = append(oc.Replay, ro)
 			if ro.Reproduced {
+				classDone[key] = true
 				violCount++
 				lines = append(lines, fmt.Sprintf("VIOLATION property=%s replay=%s", id, path))
 				fmt.Printf("  violation: %s: %s @ %s (harness %s)\n", v.Kind, v.Msg, v.Where, v.Harness)
 				exit = 1
-			} else {
-				engineErrors = append(engineErrors, fmt.Sprintf("ENGINE-MISMATCH %s: counterexample for '%s' did not reproduce natively (replay %s): %s", oc.Run.Harness, v.Msg, path, lastLines(ro.Output, 6)))
+			} else if _, have := classFirst[key]; !have {
+				classFirst[key] = ro
 			}
+		}
+		for _, key := range classOrder {
+			if classDone[key] {
+				continue
+			}
+			ro := classFirst[key]
+			engineErrors = append(engineErrors, fmt.Sprintf("ENGINE-MISMATCH %s: %d counterexample(s) for '%s' did not reproduce natively (first replay %s): %s", oc.Run.Harness, classTries[key], ro.V.Msg, ro.Path, lastLines(ro.Output, 6)))
 		}
 	}
 	wall := time.Since(start).Seconds()
@@ -586,7 +605,7 @@ func replayMain(args []string) int {
 		Synctest               bool
 	}
 	json.Unmarshal(b, &doc)
-	p, err := sym.Load(sym.LoadConfig{RepoDir: filepath.Join(repoDir, doc.Pkg), HarnessDir: filepath.Join(verifDir, "harness", doc.Pkg), Tags: []string{"verif"}})
+	p, err := sym.Load(sym.LoadConfig{RepoDir: filepath.Join(repoDir, doc.Pkg), HarnessDir: filepath.Join(verifDir, "harness", doc.Pkg), Tags: []string{"verif", "math_big_pure_go"}})
 	if err != nil {
 		fmt.Fprintln(os.Stderr, err)
 		return 2
